@@ -92,6 +92,22 @@ impl<'b> LuaDocParser<'_, 'b> {
     }
 
     pub fn bump(&mut self) {
+        #[cfg(emmyluals_emmylua_analyzer_rust_verif)]
+        crate::verif::rec(|| crate::verif::VerifOp::DocBump {
+            skip: match self.lexer.state {
+                LuaDocLexerState::Normal
+                | LuaDocLexerState::Version
+                | LuaDocLexerState::Mapped
+                | LuaDocLexerState::Extends => 0,
+                LuaDocLexerState::FieldStart
+                | LuaDocLexerState::See
+                | LuaDocLexerState::Source
+                | LuaDocLexerState::AttributeUse
+                | LuaDocLexerState::CastExpr => 1,
+                LuaDocLexerState::Init => 2,
+                _ => 3,
+            },
+        });
         if !is_invalid_kind(self.current_token) {
             #[cfg(emmyluals_emmylua_analyzer_rust_verif)]
             crate::verif::rec(|| crate::verif::VerifOp::DocEat {
@@ -206,6 +222,11 @@ impl<'b> LuaDocParser<'_, 'b> {
             }
 
             kind = self.lexer.lex();
+            #[cfg(emmyluals_emmylua_analyzer_rust_verif)]
+            crate::verif::rec(|| crate::verif::VerifOp::DocLex {
+                kind,
+                range: self.lexer.current_token_range(),
+            });
             if kind != LuaTokenKind::TkEof {
                 break;
             }
@@ -257,6 +278,10 @@ impl<'b> LuaDocParser<'_, 'b> {
                         | LuaTokenKind::TkEof
                         | LuaTokenKind::TkDocContinueOr
                 ) {
+                    #[cfg(emmyluals_emmylua_analyzer_rust_verif)]
+                    crate::verif::rec(|| {
+                        crate::verif::VerifOp::DocSetKind(LuaTokenKind::TkDocTrivia)
+                    });
                     self.current_token = LuaTokenKind::TkDocTrivia;
                 }
             }
@@ -274,8 +299,12 @@ impl<'b> LuaDocParser<'_, 'b> {
     fn re_calc_detail(&mut self) {
         self.current_token = LuaTokenKind::TkDocDetail;
         if self.lexer.is_invalid() {
+            #[cfg(emmyluals_emmylua_analyzer_rust_verif)]
+            crate::verif::rec(|| crate::verif::VerifOp::DocSetKind(LuaTokenKind::TkDocDetail));
             return;
         }
+        #[cfg(emmyluals_emmylua_analyzer_rust_verif)]
+        crate::verif::rec(|| crate::verif::VerifOp::DocRecalcDetail);
         self.current_token = LuaTokenKind::None;
         let read_range = self.current_token_range;
         let origin_token_range = self.tokens[self.origin_token_index].range;
@@ -294,6 +323,8 @@ impl<'b> LuaDocParser<'_, 'b> {
         if self.lexer.is_invalid() {
             return;
         }
+        #[cfg(emmyluals_emmylua_analyzer_rust_verif)]
+        crate::verif::rec(|| crate::verif::VerifOp::DocRecalcCast);
 
         // cast key 的解析是可以以`.`分割的, 但 `type` 不能以`.`分割必须视为一个整体, 因此我们需要回退
         let read_range = self.current_token_range;
@@ -317,6 +348,8 @@ impl<'b> LuaDocParser<'_, 'b> {
 
     pub fn bump_to_end(&mut self) {
         self.set_lexer_state(LuaDocLexerState::Trivia);
+        #[cfg(emmyluals_emmylua_analyzer_rust_verif)]
+        crate::verif::rec(|| crate::verif::VerifOp::DocEatLex);
         self.eat_current_and_lex_next();
         self.set_lexer_state(LuaDocLexerState::Init);
         self.bump();
@@ -331,6 +364,8 @@ impl<'b> LuaDocParser<'_, 'b> {
     }
 
     pub fn set_current_token_kind(&mut self, kind: LuaTokenKind) {
+        #[cfg(emmyluals_emmylua_analyzer_rust_verif)]
+        crate::verif::rec(|| crate::verif::VerifOp::DocSetKind(kind));
         self.current_token = kind;
     }
 }
